@@ -697,11 +697,13 @@ class TopKRetMulticlass(TopKRet):
 class Thresholded(Adapter):
   name = 'ThresholdedRetrieval'
   pools = [[(['a', 'b'], ['a', 'c', 'b'], [0.9, 0.8, 0.3]), (['c'], ['a'], [0.6]), (['b', 'd'], ['d', 'b'], [0.55, 0.2]),
-            (['a'], ['b', 'a'], [0.7, 0.65])]]
+            (['a'], ['b', 'a'], [0.7, 0.65])],
+           # an example without ground truth (all of its predictions are false positives) may be a batch of its own
+           [([], ['a', 'b'], [0.9, 0.6]), (['c'], ['c', 'a'], [0.8, 0.4]), (['b'], ['a'], [0.3]), ([], ['d'], [0.7])]]
 
   def fresh(self):
     from ml_metrics._src.aggregates import retrieval
-    return retrieval.ThresholdedRetrieval(thresholds=(0.0, 0.5, 0.75))
+    return retrieval.ThresholdedRetrieval(thresholds=(0.75, 0.0, 0.5), metrics=['precision', 'recall', 'f1_score', 'precision@0.5', 'recall@0.75'])
 
   def batch_args(self, rows):
     return ([r[0] for r in rows], [r[1] for r in rows], [r[2] for r in rows])
